@@ -175,3 +175,131 @@ Print Assumptions ConfigText_stmts_bindings.
 Print Assumptions ConfigText_section_key_split.
 Print Assumptions ConfigText_macro_key_split.
 Print Assumptions ConfigText_repr_atoms_lexable.
+
+(* ================================================================== *)
+(* (appended, follow-up 2) THE BRIDGE to the line-level serialiser Model/Serial.v, what transfers from Props/C06.v, the round
+   trip, and hypotheses on the INPUT only.  Proofs in Proofs/ConfigTextBridge.v and Proofs/ConfigTextKeys.v;
+   definitions in Model/ConfigSerial.v:
+     [sval_of w cv] / [sentry_of w e]: the oracle value (representable = literal tree; lines = those of pformat w) and
+       entry of Model/Serial.v;  [join_lines] = '\n'.join;
+     [entry_ascii reg w e]: scope, scoped selector, parameter names and value texts are 7-bit (len() = bytes);
+     [c_restored entries]: the store a reader of the text ends up with (the analogue of SerialProofs2.restored);
+     [store_bindings o reg es]: the bindings a store holds, as (scope, selector as written, parameter, value);
+     [entry_input_ok o e]: is_selector (c_sel e), the scope a "/"-joined list of identifiers, every literal parameter
+       an identifier with a readable value ([value_ok]). *)
+From GinV Require Import Model.ConfigSerial Proofs.SerialProofs Proofs.SerialProofs2 Proofs.ConfigTextBridge Proofs.ConfigTextKeys.
+From Coq Require Import Sorting.Permutation.
+
+(* the characters gin writes ARE the lines of Serial.config_lines (no imports) joined with newlines *)
+Theorem ConfigText_is_config_lines : forall registry entries maxlen indent,
+  Forall (entry_ascii (reg_of registry) (maxlen - indent)) entries ->
+  ConfigText.config_text registry entries maxlen indent =
+  join_lines (Serial.config_lines registry [] (map (sentry_of (maxlen - indent)) entries) maxlen indent).
+Proof. exact config_text_is_config_lines. Qed.
+(* ... the two format_binding agree: Serial's list of lines (code-point lengths), joined, is PPrint's string *)
+Theorem ConfigText_format_binding_join : forall maxlen indent key v,
+  ascii_only key = true -> ascii_only (pformat (maxlen - indent) v) = true ->
+  join_lines (Serial.format_binding maxlen indent key (sval_of (maxlen - indent) (CLit v))) =
+  PPrint.format_binding maxlen indent key v.
+Proof. exact format_binding_join. Qed.
+(* ... and the item lists of the two models correspond one to one *)
+Theorem ConfigText_items_correspond : forall w registry entries maxlen,
+  map (item_of w) (ConfigText.config_items registry entries maxlen) =
+  SerialProofs.config_items registry [] (map (sentry_of w) entries) maxlen.
+Proof. exact items_correspond. Qed.
+
+(* transferred from C06_order_independent: the TEXT depends only on the set of entries *)
+Theorem ConfigText_order_independent : forall registry es1 es2 maxlen indent,
+  NoDup (map (fun e => (c_scope e, c_sel e)) es1) -> Permutation es1 es2 ->
+  Forall (entry_ascii (reg_of registry) (maxlen - indent)) es1 ->
+  ConfigText.config_text registry es1 maxlen indent = ConfigText.config_text registry es2 maxlen indent.
+Proof. exact config_text_order_independent. Qed.
+(* transferred from C06_roundtrip_text: serialising the restored store gives the identical TEXT *)
+Theorem ConfigText_restored_fixpoint : forall registry entries maxlen indent,
+  NoDup (map (fun e => (c_scope e, c_sel e)) entries) ->
+  (forall e, In e entries -> c_section_ok e = true -> c_lit_params e <> []) ->
+  Forall (entry_ascii (reg_of registry) (maxlen - indent)) entries ->
+  ConfigText.config_text registry (c_restored entries) maxlen indent = ConfigText.config_text registry entries maxlen indent.
+Proof. exact config_text_restored_fixpoint. Qed.
+Theorem ConfigText_restored_is_restored : forall w entries,
+  restored (map (sentry_of w) entries) = map (sentry_of w) (c_restored entries).
+Proof. exact restored_conv. Qed.
+
+(* the statements read are the bindings of the entries = the bindings the restored store holds *)
+Theorem ConfigText_stmts_are_bindings : forall o registry entries maxlen indent,
+  Forall (entry_denotes o) entries -> Forall (entry_keys_ok (reg_of registry)) entries ->
+  flat_map stmt_binding (expected_stmts o registry entries maxlen indent) = expected_bindings o registry entries.
+Proof. exact stmts_are_bindings. Qed.
+Theorem ConfigText_bindings_of_restored : forall o registry entries,
+  expected_bindings o registry entries = store_bindings o (reg_of registry) (c_restored entries).
+Proof. exact bindings_of_restored. Qed.
+
+(* ROUND TRIP: lexing + parsing config_text yields the bindings of the store [c_restored entries], and that store
+   re-serialises to the identical text (sections printing only "# None." excluded: finding F18) *)
+Theorem ConfigText_roundtrip : forall o registry entries maxlen indent,
+  Forall (entry_ok o (reg_of registry)) entries -> Forall (entry_keys_ok (reg_of registry)) entries ->
+  Forall (entry_ascii (reg_of registry) (maxlen - indent)) entries ->
+  NoDup (map (fun e => (c_scope e, c_sel e)) entries) ->
+  (forall e, In e entries -> c_section_ok e = true -> c_lit_params e <> []) ->
+  supported (ConfigText.config_text registry entries maxlen indent) = true ->
+  (exists ts, lex (ConfigText.config_text registry entries maxlen indent) = Some ts /\
+     exists fuel0, forall fuel, fuel0 <= fuel ->
+       exists stmts, parse_all fuel o false ts [] = (stmts, None) /\
+                     flat_map stmt_binding stmts = store_bindings o (reg_of registry) (c_restored entries)) /\
+  ConfigText.config_text registry (c_restored entries) maxlen indent = ConfigText.config_text registry entries maxlen indent.
+Proof. exact config_text_roundtrip. Qed.
+
+(* HYPOTHESES ON THE INPUT ONLY: the written keys are well formed whatever the registry makes the minimal selector *)
+Theorem ConfigText_minimal_form : forall reg e, is_selector (c_sel e) = true ->
+  exists a r, ident a /\ Forall ident r /\ c_minimal reg e = join "." (a :: r).
+Proof. exact c_minimal_form. Qed.
+Theorem ConfigText_entry_ok_from_input : forall o reg e, entry_input_ok o e -> entry_ok o reg e /\ entry_keys_ok reg e.
+Proof. exact entry_ok_from_input. Qed.
+Theorem ConfigText_reads_back_bindings : forall o registry entries maxlen indent,
+  Forall (entry_input_ok o) entries ->
+  supported (ConfigText.config_text registry entries maxlen indent) = true ->
+  exists ts, lex (ConfigText.config_text registry entries maxlen indent) = Some ts /\
+    exists fuel0, forall fuel, fuel0 <= fuel ->
+      exists stmts, parse_all fuel o false ts [] = (stmts, None) /\
+                    stmts = expected_stmts o registry entries maxlen indent /\
+                    flat_map stmt_binding stmts = expected_bindings o registry entries.
+Proof. exact config_text_reads_back_input. Qed.
+
+(* non-vacuity: the example store without its "# None." section *)
+Example ConfigText_ex2_input_ok : Forall (entry_input_ok pp_ex_oracle) ct2_entries.
+Proof. exact ct2_input_ok. Qed.
+Example ConfigText_ex2_reads_back_applies :
+  exists ts, lex (ConfigText.config_text ct_ex_registry ct2_entries 24 4) = Some ts /\
+    exists fuel0, forall fuel, fuel0 <= fuel ->
+      exists stmts, parse_all fuel pp_ex_oracle false ts [] = (stmts, None) /\
+        stmts = expected_stmts pp_ex_oracle ct_ex_registry ct2_entries 24 4 /\
+        flat_map stmt_binding stmts = expected_bindings pp_ex_oracle ct_ex_registry ct2_entries.
+Proof. apply ConfigText_reads_back_bindings; [exact ConfigText_ex2_input_ok | vm_compute; reflexivity]. Qed.
+Example ConfigText_ex2_bindings : expected_bindings pp_ex_oracle ct_ex_registry ct2_entries =
+  [("", "mm", "", Some (OT "int" [OS "3"])); ("a/b", "f", "lr", Some (OT "int" [OS "-1"])); ("a/b", "f", "x", Some pp_ex_out)] /\
+  store_bindings pp_ex_oracle (reg_of ct_ex_registry) (c_restored ct2_entries) = expected_bindings pp_ex_oracle ct_ex_registry ct2_entries.
+Proof. exact ct2_bindings. Qed.
+Example ConfigText_ex2_fixpoint_applies :
+  ConfigText.config_text ct_ex_registry (c_restored ct2_entries) 24 4 = ConfigText.config_text ct_ex_registry ct2_entries 24 4.
+Proof. exact ct2_fixpoint_applies. Qed.
+Example ConfigText_ex_none_section_not_restored :
+  ConfigText.config_text ct_ex_registry (c_restored ct_ex_entries) 24 4 <> ConfigText.config_text ct_ex_registry ct_ex_entries 24 4.
+Proof. exact ct_ex_fixpoint_fails. Qed.
+
+Print Assumptions ConfigText_is_config_lines.
+Print Assumptions ConfigText_format_binding_join.
+Print Assumptions ConfigText_items_correspond.
+Print Assumptions ConfigText_order_independent.
+Print Assumptions ConfigText_restored_fixpoint.
+Print Assumptions ConfigText_restored_is_restored.
+Print Assumptions ConfigText_stmts_are_bindings.
+Print Assumptions ConfigText_bindings_of_restored.
+Print Assumptions ConfigText_roundtrip.
+Print Assumptions ConfigText_minimal_form.
+Print Assumptions ConfigText_entry_ok_from_input.
+Print Assumptions ConfigText_reads_back_bindings.
+Print Assumptions ConfigText_ex2_input_ok.
+Print Assumptions ConfigText_ex2_reads_back_applies.
+Print Assumptions ConfigText_ex2_bindings.
+Print Assumptions ConfigText_ex2_fixpoint_applies.
+Print Assumptions ConfigText_ex_none_section_not_restored.
